@@ -1,8 +1,9 @@
 ---------------------------- MODULE GenStatusOpsN ----------------------------
 (* Emits the alphabet of MCStatusNested_N (plain and nested operations) for the exploration of the implementation *)
 EXTENDS MCStatusNested, Json, IOUtils, SequencesExt
-OpJ(o) == IF Len(o) = 3 THEN <<o[1], o[2], ToInt(o[3])>> ELSE o
-All == Ops \cup NestedOps
+OpJ0(o) == IF Len(o) = 3 THEN <<o[1], o[2], ToInt(o[3])>> ELSE o
+OpJ(o) == IF o[1] \in SrqKinds THEN <<o[1]>> \o OpJ0(InnerOf(o)) ELSE OpJ0(o)
+All == Ops \cup NestedOps \cup SrqOps
 ASSUME ndJsonSerialize(IOEnv.OUT, [i \in 1..Cardinality(All) |-> OpJ(SetToSeq(All)[i])])
 GenNext == FALSE /\ UNCHANGED vars
 =============================================================================
